@@ -98,6 +98,30 @@ structure LoadSeg where
   virt : Nat
   deriving DecidableEq, Repr, Inhabited
 
+/-! ### Number of program headers: ELF extended numbering (`init_elf32`, `init_elf64`)
+
+A file with `0xffff` or more program headers stores `e_phnum = PN_XNUM` and the real
+number in `sh_info` of section header 0; a file with `0xff00` or more sections stores
+`e_shnum = 0` and the real number in `sh_size` of that header.  `sh0` is (`sh_size`,
+`sh_info`) of section header 0, `none` if it cannot be read. -/
+def PN_XNUM : Nat := 0xffff
+
+/-- (number of sections, number of program headers) as `init_elf64` computes them; `none` = header error -/
+def elfCounts (ePhnum eShnum eShoff : Nat) (sh0 : Option (Nat × Nat)) : Option (Nat × Nat) :=
+  if eShoff ≠ 0 ∧ (eShnum = 0 ∨ ePhnum = PN_XNUM) then
+    match sh0 with
+    | none => none
+    | some (size, info) =>
+      let shnum := if eShnum = 0 then size else eShnum
+      let phnum := if shnum > 0 ∧ ePhnum = PN_XNUM then info else ePhnum
+      some (shnum, phnum)
+  else some (eShnum, ePhnum)
+
+/-- the LOAD segments the library knows: those among the first `phnum` entries of the program header table
+(`tab`: index in the table, segment) -/
+def elfLoads (tab : List (Nat × LoadSeg)) (phnum : Nat) : List LoadSeg :=
+  (tab.filter fun e => e.1 < phnum).map (·.2)
+
 /-- key of a segment in the address space of the request -/
 def LoadSeg.key (s : LoadSeg) (kv : Bool) : Nat := if kv then s.virt else s.phys
 /-- size the lookup is about: memory extent or file-backed extent -/
